@@ -262,6 +262,7 @@ type c11nCase struct {
 	Ops []c11nOp `json:"ops"`
 }
 
+var c11nReopen = []string{"restart", "restore", "restore", "backup-lost", "backup-lost"}
 var c11nGenuine = []string{"real", "genuine-now", "genuine-past", "genuine-key2"}
 var c11nForged = []string{"other-signer", "names-attacker", "names-other-issuer", "vm-other-did", "date-before-key", "date-before-did", "tampered", "tampered", "tampered", "retarget", "redate", "attacker-own-subject",
 	"issuer-prefix:did", "issuer-prefix:method", "issuer-prefix:common", "issuer-prefix:long", "issuer-near:suffix", "issuer-near:segment", "issuer-near:case"}
@@ -271,7 +272,7 @@ func c11nGen(t *rapid.T) c11nCase {
 	for i, n := 0, rapid.IntRange(1, 2).Draw(t, "prefix"); i < n; i++ {
 		c.Ops = append(c.Ops, c11nOp{K: "issue", I: rapid.IntRange(0, 1).Draw(t, "i")})
 	}
-	kinds := []string{"issue", "reg-genuine", "reg-genuine", "reg-forged", "reg-forged", "reg-forged", "reg-forged", "verify", "verify", "verify", "reopen", "sc-before", "sc-forged-then-verify"}
+	kinds := []string{"issue", "reg-genuine", "reg-genuine", "reg-forged", "reg-forged", "reg-forged", "reg-forged", "verify", "verify", "verify", "reopen", "reopen", "sc-before", "sc-forged-then-verify", "sc-storage-history", "sc-storage-history"}
 	mut := func(t *rapid.T, op *c11nOp) {
 		if op.V == "tampered" {
 			m := jsonmut.Gen(t, "mut", nil, []string{"issuer", "subject", "date", "reason", "proof", "jws", "verificationMethod"})
@@ -292,7 +293,16 @@ func c11nGen(t *rapid.T) c11nCase {
 		case "verify":
 			return []c11nOp{{K: "verify", C: rapid.Uint32().Draw(t, "c")}}
 		case "reopen":
-			return []c11nOp{{K: "reopen", V: rapid.SampledFrom([]string{"restart", "restore"}).Draw(t, "v")}}
+			return []c11nOp{{K: "reopen", V: rapid.SampledFrom(c11nReopen).Draw(t, "v")}}
+		case "sc-storage-history":
+			// a revocation is accepted; then the two stores (leia collection, backup shelf) are lost one at a time, in
+			// either order, with restarts and possibly further revocations in between; one of them survives every step
+			sel := rapid.Uint32().Draw(t, "c")
+			ops := []c11nOp{{K: "reg", C: sel, V: rapid.SampledFrom(c11nGenuine).Draw(t, "v")}, {K: "reopen", V: rapid.SampledFrom(c11nReopen).Draw(t, "v1")}}
+			if rapid.Bool().Draw(t, "more") {
+				ops = append(ops, c11nOp{K: "issue", I: rapid.IntRange(0, 1).Draw(t, "i")}, c11nOp{K: "reg", L: true, V: "genuine-now"})
+			}
+			return append(ops, c11nOp{K: "reopen", V: rapid.SampledFrom(c11nReopen).Draw(t, "v2")}, c11nOp{K: "verify", C: sel})
 		case "sc-before":
 			// the revocation reaches the node before the credential is seen there for the first time
 			return []c11nOp{{K: "issue", I: rapid.IntRange(0, 1).Draw(t, "i")},
@@ -588,9 +598,18 @@ func (r *c11nRun) opVerify(op c11nOp) bool {
 
 func (r *c11nRun) opReopen(op c11nOp) {
 	r.x.NoErr(r.store.Close(), "close store")
-	if op.V == "restore" {
-		// the leia index is lost; the node rebuilds it from the backup shelf
+	switch op.V {
+	case "restore":
+		// the leia collection is lost; the node rebuilds it from the backup shelf
 		r.x.NoErr(os.Remove(filepath.Join(r.dir, "verifier-store.db")), "remove leia file")
+	case "backup-lost":
+		// the backup shelf is absent (KV storage moved / upgrade from a version without revocation backup) while the
+		// leia collection is intact; the node refills the backup from the collection at start-up
+		r.x.NoErr(r.backup.Close(context.Background()), "close backup store")
+		r.x.NoErr(os.Remove(filepath.Join(r.dir, "backup.db")), "remove backup file")
+		var err error
+		r.backup, err = bbolt.CreateBBoltStore(filepath.Join(r.dir, "backup.db"), stoabs.WithNoSync())
+		r.x.NoErr(err, "new backup store")
 	}
 	r.open()
 	r.x.Class("netrev:reopen:" + op.V)
